@@ -76,25 +76,42 @@ func Run(c *core.Ctx) {
 		cliDepth = []int{5, 5, 5}
 		c.Note("bounds", "map-order: bound 1 with the complete menu (every permutation for <=4 keys, reverse/rotate/swap beyond, altA/altB) and bound 2 (pairs of hasher/openapi sites, both reversed) "+
 			"over the selection (extra designs + middle and last design of every family); bound 1 with the menu {reverse, altA} over all other designs of all families; "+
-			"repetition: twice in-process + 5 fresh processes per design; CLI histories: length <= 5 for 3 designs")
+			"repetition: twice in-process + 5 fresh processes per design; CLI histories: length <= 5 for 3 designs (one of them with -o out)")
 	} else {
-		c.Note("bounds", "map-order: bound 1 with the complete menu over the selection (extra designs + middle and last design of every family); "+
-			"repetition: twice in-process + 2 fresh processes per design; CLI histories: length <= 4 (httponly) and <= 3 (views, multisvc)")
+		c.Note("bounds", "map-order: bound 1 with the complete menu over the selection (extra designs + last design of every family); "+
+			"repetition: twice in-process + 2 fresh processes per design; CLI histories: length <= 4 (httponly) and <= 3 (views with -o out, multisvc)")
 	}
 	c.Note("designs_selection", names)
 	c.Note("designs_total", len(designs))
 
+	// C09_ONLY=map-order|repetition|cli restricts a run to one exploration (development aid for
+	// mutation experiments on a loaded machine; such a run is reported as incomplete)
+	only := os.Getenv("C09_ONLY")
+	if only != "" {
+		c.Incomplete("C09_ONLY=" + only + ": the other explorations were not run")
+	}
 	// the CLI exploration is independent of the others: run it concurrently
 	done := make(chan struct{})
 	go func() {
 		defer close(done)
+		if only != "" && only != "cli" {
+			return
+		}
 		defer func() {
 			if r := recover(); r != nil {
 				c.HarnessError("cli exploration panicked: %v", r)
 			}
 		}()
-		RunCLI(c, e, []string{"httponly", "views", "multisvc"}, cliDepth)
+		RunCLI(c, e, []CLITarget{{"httponly", "", cliDepth[0]}, {"views", "out", cliDepth[1]}, {"multisvc", "", cliDepth[2]}})
 	}()
+	if only == "cli" {
+		<-done
+		return
+	}
+	if only == "repetition" {
+		full, pairs = map[string]bool{}, map[string]bool{}
+		e.noDeviations = true
+	}
 	t0 := time.Now()
 	bases := RunMapOrder(c, e, designs, full, pairs)
 	c.Note("map_order_wall_s", time.Since(t0).Seconds())
@@ -102,7 +119,9 @@ func Run(c *core.Ctx) {
 	for _, b := range bases[:min(3, len(bases))] {
 		c.Sample(map[string]any{"exploration": "map-order", "design": b.d.Name, "files": len(b.run.Tree), "sites_reached": len(b.run.Report)})
 	}
-	RunRepetition(c, e, bases, fresh)
+	if only == "" || only == "repetition" {
+		RunRepetition(c, e, bases, fresh)
+	}
 	c.Note("repetition_wall_s", time.Since(t0).Seconds())
 	<-done
 }
@@ -135,7 +154,7 @@ func Replay(c *core.Ctx, path string) {
 		var mc MapOrderCase
 		_ = core.ReplayCase(path, &mc)
 		restore(&mc.Design, mc.Spec)
-		m := &mapOrder{c: c, e: e, sites: map[string]*siteStat{}, seen: map[string]bool{}}
+		m := newMapOrder(c, e)
 		bases := m.runBaselines([]*DesignRef{&mc.Design})
 		if len(bases) != 1 {
 			c.HarnessError("replay: baseline of %s not generated", mc.Design.Name)
@@ -147,7 +166,7 @@ func Replay(c *core.Ctx, path string) {
 		var rc RepeatCase
 		_ = core.ReplayCase(path, &rc)
 		restore(&rc.Design, rc.Spec)
-		m := &mapOrder{c: c, e: e, sites: map[string]*siteStat{}, seen: map[string]bool{}}
+		m := newMapOrder(c, e)
 		bases := m.runBaselines([]*DesignRef{&rc.Design})
 		if len(bases) != 1 {
 			c.HarnessError("replay: baseline of %s not generated", rc.Design.Name)
@@ -159,7 +178,7 @@ func Replay(c *core.Ctx, path string) {
 		var cc CLICase
 		_ = core.ReplayCase(path, &cc)
 		x := &cliExplorer{c: c, e: e}
-		d := &cliDesign{name: cc.Design}
+		d := &cliDesign{name: cc.Design, out: cc.Out}
 		dir, err := x.newSlot(cc.Design, 0)
 		if err != nil {
 			c.HarnessError("replay: %v", err)
